@@ -111,7 +111,7 @@ func (r *rconn) snapshot() ([]wire.Message, bool, error) {
 	return append([]wire.Message(nil), r.msgs...), r.eof, r.p.Err
 }
 func (r *rconn) send(b []byte) { r.c.Write(b) }
-func (r *rconn) close()       { r.mu.Lock(); r.closed = true; r.mu.Unlock(); r.c.Close() }
+func (r *rconn) close()        { r.mu.Lock(); r.closed = true; r.mu.Unlock(); r.c.Close() }
 func (r *rconn) reset() {
 	if tc, ok := r.c.(*net.TCPConn); ok {
 		tc.SetLinger(0)
@@ -335,9 +335,17 @@ func socketFDs() int {
 // ---------------------------------------------------------------- scenarios
 
 // session: handshake in one direction, UPDATEs both ways, Close (C01 C03 C04 C10 C14).
-func sessionCase(dir string, k int) rt.Result {
+func sessionCase(dir string, k int) rt.Result { return sessionCaseAF(dir, k, false) }
+
+// sessionCaseAF: v6 runs the same session between ::1 and ::1 (the only IPv6
+// loopback address), always with the local address configured.
+func sessionCaseAF(dir string, k int, v6 bool) rt.Result {
 	peerIP := fmt.Sprintf("127.0.1.%d", 10+k%200)
-	w, err := newWorld("127.0.0.1:0")
+	lhost := "127.0.0.1"
+	if v6 {
+		peerIP, lhost = "::1", "::1"
+	}
+	w, err := newWorld(net.JoinHostPort(lhost, "0"))
 	if err != nil {
 		return rt.Result{Verdict: "inconclusive", Why: err.Error()}
 	}
@@ -347,7 +355,7 @@ func sessionCase(dir string, k int) rt.Result {
 	if dir == "in" {
 		opts = append(opts, corebgp.WithPassive())
 	} else {
-		rl, err = net.Listen("tcp", peerIP+":0")
+		rl, err = net.Listen("tcp", net.JoinHostPort(peerIP, "0"))
 		if err != nil {
 			return rt.Result{Verdict: "inconclusive", Why: err.Error()}
 		}
@@ -356,9 +364,9 @@ func sessionCase(dir string, k int) rt.Result {
 	}
 	// a third of the sessions run with a configured local address: inbound it is the
 	// address the remote connects to, outbound the dial is bound to it
-	if k%3 == 1 {
-		la := "127.0.0.1"
-		if dir == "out" {
+	if k%3 == 1 || v6 {
+		la := lhost
+		if dir == "out" && !v6 {
 			la = fmt.Sprintf("127.0.0.%d", 2+k%7)
 		}
 		opts = append(opts, corebgp.WithLocalAddress(netip.MustParseAddr(la)))
@@ -370,10 +378,27 @@ func sessionCase(dir string, k int) rt.Result {
 	w.serve()
 	var c net.Conn
 	if dir == "in" {
-		c, err = dialFrom(peerIP, fmt.Sprintf("127.0.0.1:%d", w.port()))
+		c, err = dialFrom(peerIP, net.JoinHostPort(lhost, fmt.Sprint(w.port())))
 	} else {
 		rl.(*net.TCPListener).SetDeadline(time.Now().Add(5 * time.Second))
 		c, err = rl.Accept()
+	}
+	if err != nil && dir == "out" {
+		// Bounded liveness in real time needs a control: wait 15 s more (400 x the
+		// idle-hold time in total), then connect to the same listener from the test. Only
+		// if that succeeds at once was the listener reachable all along while corebgp,
+		// configured to retry every 50 ms, never got through.
+		rl.(*net.TCPListener).SetDeadline(time.Now().Add(15 * time.Second))
+		if c, err = rl.Accept(); err != nil {
+			t0 := time.Now()
+			cc, cerr := net.DialTimeout("tcp", rl.Addr().String(), 2*time.Second)
+			if cerr == nil {
+				cc.Close()
+				w.violate("no outbound connection from corebgp within 20 s (idle-hold time 50 ms) to %s, while a control connection to the same listener succeeded in %v", rl.Addr(), time.Since(t0))
+				w.close()
+				return w.result("session-"+dir, true, nil)
+			}
+		}
 	}
 	if err != nil {
 		w.inconclusive("no connection: %v", err)
@@ -381,7 +406,28 @@ func sessionCase(dir string, k int) rt.Result {
 		return w.result("", false, nil)
 	}
 	rc := newRconn(c)
-	if !rc.handshake(0x7f000a00+uint32(k), 9) || !pl.wait(5*time.Second, func() bool { return pl.est == 1 }) {
+	hs := rc.handshake(0x7f000a00+uint32(k), 9)
+	// an outbound connection that corebgp closes without having sent a byte is followed
+	// by its next attempt; three in a row are a verdict (nothing in this scenario makes
+	// corebgp give up a connection it has just made)
+	for mute := 1; !hs && dir == "out"; mute++ {
+		if ms, eof, _ := rc.snapshot(); !eof || len(ms) != 0 {
+			break
+		}
+		if mute == 3 {
+			w.violate("corebgp connected to %s %d times and closed each connection without sending an OPEN (idle-hold time 50 ms, remote accepting)", rl.Addr(), mute)
+			w.close()
+			return w.result("session-"+dir, true, nil)
+		}
+		rl.(*net.TCPListener).SetDeadline(time.Now().Add(5 * time.Second))
+		c, err = rl.Accept()
+		if err != nil {
+			break
+		}
+		rc = newRconn(c)
+		hs = rc.handshake(0x7f000a00+uint32(k), 9)
+	}
+	if !hs || !pl.wait(5*time.Second, func() bool { return pl.est == 1 }) {
 		ms, eof, perr := rc.snapshot()
 		w.inconclusive("handshake did not complete in time: %s eof=%v perr=%v", types(ms), eof, perr)
 		w.close()
@@ -889,7 +935,12 @@ func paceCase(k int) rt.Result {
 	pl := newPlug()
 	w.srv.AddPeer(corebgp.PeerConfig{RemoteAddress: netip.MustParseAddr("127.0.6.1"), LocalAS: lAS, RemoteAS: rAS}, pl,
 		corebgp.WithPort(1), corebgp.WithIdleHoldTime(200*time.Millisecond),
-		corebgp.WithDialerControl(func(string, string, syscall.RawConn) error { mu.Lock(); at = append(at, time.Now()); mu.Unlock(); return nil }))
+		corebgp.WithDialerControl(func(string, string, syscall.RawConn) error {
+			mu.Lock()
+			at = append(at, time.Now())
+			mu.Unlock()
+			return nil
+		}))
 	w.serve()
 	time.Sleep(2100 * time.Millisecond)
 	w.close()
@@ -1129,6 +1180,113 @@ func (f *fnPlugin) OnEstablished(corebgp.PeerConfig, corebgp.UpdateMessageWriter
 }
 func (f *fnPlugin) OnClose(corebgp.PeerConfig) { f.onClose() }
 
+// slowHandlerCase (C06, C03): the update handler is busy for longer than the hold
+// time while the remote keeps sending KEEPALIVEs well inside it. The hold timer
+// fires while the FSM is away; the messages received meanwhile must still count
+// (no Hold Timer Expired, later UPDATEs delivered). Needs the timer-channel
+// semantics the process runs with: this is the scenario in which the pre-Go-1.23
+// ones (GODEBUG=asynctimerchan=1, what a go.mod below 1.23 gives) differ.
+func slowHandlerCase(k int) rt.Result {
+	peerIP := fmt.Sprintf("127.0.11.%d", 10+k%200)
+	w, err := newWorld("127.0.0.1:0")
+	if err != nil {
+		return rt.Result{Verdict: "inconclusive", Why: err.Error()}
+	}
+	var mu sync.Mutex
+	nUpd, closed := 0, 0
+	busy := 3300 * time.Millisecond
+	pl := &fnPlugin{onEst: func() {}, onClose: func() { mu.Lock(); closed++; mu.Unlock() }, onUpdate: func() {
+		mu.Lock()
+		nUpd++
+		first := nUpd == 1
+		mu.Unlock()
+		if first {
+			time.Sleep(busy)
+		}
+	}}
+	w.srv.AddPeer(corebgp.PeerConfig{RemoteAddress: netip.MustParseAddr(peerIP), LocalAS: lAS, RemoteAS: rAS}, pl, corebgp.WithPassive(), corebgp.WithHoldTime(3))
+	w.serve()
+	c, err := dialFrom(peerIP, fmt.Sprintf("127.0.0.1:%d", w.port()))
+	if err != nil {
+		w.inconclusive("dial: %v", err)
+		w.close()
+		return w.result("", false, nil)
+	}
+	rc := newRconn(c)
+	if !rc.handshake(0x0a000101, 30) {
+		w.inconclusive("handshake")
+		w.close()
+		return w.result("", false, nil)
+	}
+	// scheduling-gap monitor: a verdict needs a machine that was not stalled
+	stop := make(chan struct{})
+	var maxGap time.Duration
+	var gwg sync.WaitGroup
+	gwg.Add(1)
+	go func() {
+		defer gwg.Done()
+		last := time.Now()
+		for {
+			select {
+			case <-stop:
+				return
+			case <-time.After(20 * time.Millisecond):
+			}
+			now := time.Now()
+			if g := now.Sub(last); g > maxGap {
+				maxGap = g
+			}
+			last = now
+		}
+	}()
+	var sends []time.Time
+	rc.send(wire.Update([]byte{0, 0, 0, 0}))
+	sends = append(sends, time.Now())
+	t0 := time.Now()
+	for time.Since(t0) < 5500*time.Millisecond {
+		time.Sleep(600 * time.Millisecond)
+		rc.send(wire.Keepalive())
+		sends = append(sends, time.Now())
+	}
+	rc.send(wire.Update([]byte{0, 0, 0, 0}))
+	time.Sleep(300 * time.Millisecond)
+	close(stop)
+	gwg.Wait()
+	ms, eof, _ := rc.snapshot()
+	rc.mu.Lock()
+	ats := append([]time.Time(nil), rc.at...)
+	rc.mu.Unlock()
+	var nAt time.Time
+	for i, m := range ms {
+		if m.Type == wire.TypeNotification && m.Notif.Code == 4 && i < len(ats) {
+			nAt = ats[i]
+		}
+	}
+	mu.Lock()
+	got := nUpd
+	mu.Unlock()
+	switch {
+	case !nAt.IsZero():
+		var last time.Time
+		for _, s := range sends {
+			if s.Before(nAt.Add(-50 * time.Millisecond)) {
+				last = s
+			}
+		}
+		if d := nAt.Sub(last); maxGap < 300*time.Millisecond && d < 2*time.Second {
+			w.violate("Hold Timer Expired sent %v after a KEEPALIVE from the remote (hold time 3 s, a KEEPALIVE every 600 ms) once the update handler had been busy for %v; %d of 2 UPDATEs delivered", d, busy, got)
+		} else {
+			w.inconclusive("hold timer expired but the machine was stalled (largest scheduling gap %v, %v after the last send)", maxGap, d)
+		}
+	case eof:
+		w.inconclusive("connection ended without Hold Timer Expired: %s", types(ms))
+	case got != 2:
+		w.inconclusive("%d of 2 UPDATEs delivered within 300 ms", got)
+	}
+	w.close()
+	return w.result("slow-handler", true, map[string]int{"real_slow_handler_sessions": 1, "keepalives_sent_while_busy": len(sends) - 1})
+}
+
 // backpressureCase: the remote stops reading while writer goroutines and the
 // keepalive timer (hold 3 s) keep writing into a 4 KiB send buffer, then
 // resumes; every byte must still parse as whole messages and every
@@ -1260,13 +1418,35 @@ func TestRealBackpressure(t *testing.T) {
 	}
 }
 
-
 func TestRealSessions(t *testing.T) {
 	c := rt.Get()
 	n := c.N(6, 60)
 	for i := 0; i < n; i++ {
 		dir := []string{"in", "out"}[i%2]
 		runCase(t, "real-session", i, map[string]any{"dir": dir, "transport": "loopback TCP"}, func() rt.Result { return sessionCase(dir, i) })
+	}
+	for i := 0; i < c.N(2, 8); i++ {
+		dir := []string{"out", "in"}[i%2]
+		runCase(t, "real-session6", i, map[string]any{"dir": dir, "transport": "loopback TCP, ::1 <-> ::1, local address configured"}, func() rt.Result { return sessionCaseAF(dir, i, true) })
+	}
+}
+
+// TestRealReconnect (C11): the real dial path (source address binding for both
+// address families, the kernel's refusals) that the virtual engine replaces.
+func TestRealReconnect(t *testing.T) {
+	c := rt.Get()
+	for i := 0; i < c.N(1, 5); i++ {
+		runCase(t, "real-dial", 3*i, map[string]any{"family": "IPv4", "local_address": true}, func() rt.Result { return sessionCaseAF("out", 1+3*i, false) })
+		runCase(t, "real-dial", 3*i+1, map[string]any{"family": "IPv6", "local_address": true}, func() rt.Result { return sessionCaseAF("out", i, true) })
+		runCase(t, "real-dial", 3*i+2, map[string]any{"family": "IPv4", "local_address": false}, func() rt.Result { return sessionCaseAF("out", 3*i, false) })
+		runCase(t, "real-pace", i, map[string]any{"idle_hold": "200ms"}, func() rt.Result { return paceCase(i) })
+	}
+}
+
+func TestRealSlowHandler(t *testing.T) {
+	c := rt.Get()
+	for i := 0; i < c.N(1, 4); i++ {
+		runCase(t, "real-slow-handler", i, map[string]any{"hold": 3, "handler_busy": "3.3s", "remote": "KEEPALIVE every 600 ms"}, func() rt.Result { return slowHandlerCase(i) })
 	}
 }
 
